@@ -72,6 +72,15 @@ CLAIMED["C34"] = dict(engine="cluster", design="§6 C34",
    technique=TECH + "real master issuing tokens and a real volume server checking them on one fake clock; token use placed by the plan around the expiry instant; accept/reject oracle plus stored-state comparison around every rejected or accepted request",
    text="Partial claim: enumeration of token shapes is input generation and only sampled (other key, alg=none, garbage, other file, sub-file suffix, missing). Simulation decides the time-dependent part in the running system: the master's Assign token (and fresh tokens) are used for uploads, deletes and reads after fake delays straddling expires_after_seconds; a request is accepted iff the token is unexpired at the server's check, signed with the configured key and names the target file (suffix ignored); rejected requests leave the stored blob untouched, accepted ones take effect.",
    note=CLUSTERNOTE + " The expiry second itself may go either way (second-granular claims). Clock skew between master and volume server is not emulated.")
+ECNOTE = "Trusted: shard loss = file absence, torn shard = truncated file, crash states built from file contents before/after the in-flight call in the real write order; the 4-byte in-place mark is assumed atomic. Peer-served degraded reads (gRPC) are not driven here."
+CLAIMED["C06"] = dict(engine="ecsim", design="§6 C06",
+   technique=TECH + "shard-loss and torn-shard injection on real EC files (every subset of <=4 lost shards in the thorough tier), rebuild, decode and interval reads compared byte for byte with the original volume",
+   text="Partial claim: the interval arithmetic over sizes and offsets is sampled by the generator (sizes on and around every row boundary with 0-3 large rows, scaled block sizes; the production constants every 8th run on volumes below two small rows). Simulation decides the fault part: any <=4 lost shards are regenerated byte-identically, more than 4 is an error, torn shards are rejected or rebuilt correctly, decode reproduces the data file and index, and every record read through shard-size-derived intervals (also after rebuild, also through a Store with missing local shards) equals the original bytes.",
+   note=ECNOTE)
+CLAIMED["C07"] = dict(engine="ecsim", design="§6 C07",
+   technique=TECH + "crash injection between the in-place mark and the journal append (and inside the journal append), reopen and index rebuilds; byte-level model of the sorted index; default and 5BytesOffset builds",
+   text="Deletes of present, absent and already deleted keys through EcVolume and through the sorted-file needle map of read-only volumes, lookups, reopen, RebuildEcxFile and WriteIdxFileFromEcIndex; crashes before the mark, between mark and journal, inside the journal append and after it. Exactly the target entry's size becomes a tombstone, every other entry keeps offset and size, the journal holds every acknowledged delete, rebuilt indexes give the model's live set, and after a crash the in-flight delete is applied or not and nothing else changed. Both offset widths.",
+   note=ECNOTE)
 
 PLANNED = {}
 
